@@ -35,6 +35,8 @@ fn main() {
         ("replay", "api") => props::api::replay(&args),
         ("replay", "protected") => props::protected::replay(&args),
         ("drive", "protected") => props::protected::drive(&args),
+        ("replay", "metadata") => props::metadata::replay(&args),
+        ("drive", "metadata") => props::metadata::drive(&args),
         ("replay", "de") => props::de::replay(&args),
         ("drive", "de") => props::de::drive(&args),
         ("replay", "cfb") => isolate::run_replay(&args, props::cfb::replay),
